@@ -38,6 +38,12 @@ OPTIONS = [['', False, False], ['src/a.pl', False, False], ['', False, True], ['
 def gen(seed, tier):
     rng = random.Random(seed)
     programs = [progs.gen_compile_program(rng) for _ in range(rng.randrange(4, 9))]
+    bigs = []
+    if rng.random() < 0.25:
+        # two programs with many predicates, of different sizes
+        for _ in range(2):
+            bigs.append(len(programs))
+            programs.append(progs.gen_compile_program(rng, big=True))
     # look-alike twins and failing variants of corpus programs: what one compilation leaves behind in the
     # process (memo tables, half-updated scopes) must not show in the next
     for text in list(programs):
@@ -59,6 +65,11 @@ def gen(seed, tier):
         # ... and program 0 through the library's own options objects, from a string and from a file
         for o in (10, 11):
             hist.insert(rng.randrange(len(hist) + 1), [0, o])
+        if bigs:
+            # ... and the big programs: one, the other, the first again (what a big compilation leaves behind in the process)
+            at = rng.randrange(len(hist) + 1)
+            first = rng.randrange(2)
+            hist[at:at] = [[bigs[first], 0], [bigs[1 - first], 0], [bigs[first], 0]]
         if rng.random() < 0.6:
             # pairs of compilations that run at the same time in two threads of the interpreter (seeded pre-emption)
             for _ in range(rng.randrange(1, 4)):
